@@ -11,7 +11,7 @@ import re
 from gen import irgen
 from vlib import core, passlib
 
-COQ_TARGETS = ["Props/C05.vo", "Model/SpecChain.vo"]
+COQ_TARGETS = ["Props/C05.vo", "Model/Spec05.vo", "Model/SpecChain.vo"]
 PROPS = "Props/C05.v"
 TRUSTED = [
     "reference sites enumerated by coq/Model/Refs.v (refs, constant refs, map index types, enum member types, struct-hint disjunctions, discriminator mapping targets, entry points)",
